@@ -26,3 +26,23 @@ Proof.
            end;
     try discriminate; inversion H; subst; constructor; cbn; auto using cmp_of_swo; eapply IH; eauto.
 Qed.
+
+(* the linear sortedness check of the wire judge is the specification's quadratic one *)
+Lemma sorted_adj_opp (c : Z -> Z -> bool) : SWO c -> forall l, sorted_adj c l = sorted_opp c l.
+Proof.
+  intros Hc. induction l as [|x t IH]; [reflexivity|].
+  destruct t as [|y t']; [reflexivity|].
+  change (sorted_adj c (x :: y :: t')) with (negb (c x y) && sorted_adj c (y :: t')).
+  rewrite IH. cbn [sorted_opp forallb].
+  destruct (c x y) eqn:Cxy; cbn [negb andb]; [reflexivity|].
+  destruct (forallb (fun y0 => negb (c y y0)) t') eqn:Fy; cbn [andb]; [|now rewrite andb_false_r].
+  destruct (sorted_opp c t') eqn:St; [|now rewrite !andb_false_r].
+  replace (forallb (fun y0 => negb (c x y0)) t') with true; [reflexivity|].
+  symmetry. apply forallb_forall. intros z Hz.
+  rewrite forallb_forall in Fy. specialize (Fy z Hz). apply negb_true_iff in Fy.
+  apply negb_true_iff. eapply (swo_nc_trans c Hc); eauto.
+Qed.
+
+Lemma sort_ok_fast_spec c input result :
+  sort_ok_fast (cmp_of c) input result = sort_ok Z.eqb (cmp_of c) input result.
+Proof. unfold sort_ok_fast, sort_ok. now rewrite (sorted_adj_opp _ (cmp_of_swo c)). Qed.
